@@ -3,7 +3,7 @@
    and the parsed text of lib/apk/db/installed. [check_case] compares with the
    model (mismatch:...) and runs the validators of Spec/InstallSpec.v on the
    observation (viol:...). *)
-From Apko Require Export Base.Prelude Model.Install Model.InstallDb Spec.InstallSpec.
+From Apko Require Export Base.Prelude Model.Install Model.InstallDb Model.InstallRead Spec.InstallSpec.
 Open Scope string_scope. Open Scope list_scope.
 
 Record case := {
@@ -157,14 +157,17 @@ Definition check_model (c : case) : list string :=
   | RFail e s =>
       tag_if (negb (eclass_eqb (class_of e) (o_err c))) "mismatch:error-class" ++
       (if eclass_eqb (class_of e) (o_err c) then
-         tag_if (negb (tree_matches (s_fs s) (o_tree c))) "mismatch:tree-after-error" ++
+         tag_if (negb (tree_matches (reader_view (c_backend c) (c_pkgs c) (s_fs s)) (o_tree c))) "mismatch:tree-after-error" ++
          tag_if (negb (option_eqb path_eqb (match e with EConflict p => Some p | _ => None end) (o_conflict c))) "mismatch:conflict-path" ++
          tag_if (match o_db c with [] => false | _ => true end) "mismatch:db-written-after-error"
        else [])
   | RDone f =>
       tag_if (negb (eclass_eqb ENoError (o_err c))) "mismatch:error-class" ++
       (if eclass_eqb ENoError (o_err c) then
-         tag_if (negb (tree_matches (f_fs f) (o_tree c))) "mismatch:tree" ++
+         (* the tree as a READER sees it: tarfs fetches a node's bytes by the entry's name
+            from the package's index (Model/InstallRead.v); the identity unless a package
+            ships a name twice *)
+         tag_if (negb (tree_matches (reader_view (c_backend c) (c_pkgs c) (f_fs f)) (o_tree c))) "mismatch:tree" ++
          (* the writer of Model/InstallDb.v: one header per name (the last), once
             per occurrence; equal to [f_db f] when no package ships a path twice
             (Proofs/InstallDbProofs.v: db_of_nodup) *)
@@ -179,7 +182,7 @@ Definition check_observed (c : case) : list string :=
   (if eclass_eqb (o_err c) ENoError && o_db_parsed c then
      nodup string_dec (check_db_entries (c_backend c) (c_pre c) (o_tree c) (first_mode c) (aliased c) (thru_link c) (dup_path c) (o_db c)) ++
      check_stanza_dups (dup_path c) (o_db c) ++
-     (if stanzas_line_up (c_pkgs c) (o_db c) then check_once_all (c_pre c) (aliased c) (thru_link c) (c_pkgs c) (o_db c) (o_tree c)
+     (if stanzas_line_up (c_pkgs c) (o_db c) then check_once_all (c_backend c) (c_pre c) (aliased c) (thru_link c) (dup_path c) (c_pkgs c) (o_db c) (o_tree c)
       else ["viol:db-stanza-per-package"])
    else []) ++
   (* a conflict must leave the path it names as it was: still a file or link *)
